@@ -8,7 +8,7 @@ INJECTS = [("harness/c14/phantoms_verif.go", "pkg/phantoms/zz_verif_c14.go"),
            ("harness/c14/main/main.go", "internal/zzverif_c14/main.go")]
 ASSUME = ["seeds: empty, 1-byte, all-zero, all-ones and sha256(counter)[:16]; other seed values are outside the alphabet",
           "part B: operations on the process-global math/rand source (Seed/Read/Intn, weightedrand.Pick) are the scheduling points; all interleavings of 2-3 selectors, no preemption bound",
-          "data races are covered only by the free-running -race companion, not by the scheduler"]
+          "data races are outside a cooperative scheduler's view: covered by the free-running companion under the Go race detector (adjunct_runs)"]
 
 
 def build():
@@ -27,6 +27,8 @@ def run(tier, seed, t0):
     for b in bs:
         args.append(["-scenario", b, "-tier", tier, "-budget", str(budget)])
     res = vlib.run_workers(w, args, timeout=budget + 120)
+    # adjunct: concurrent selections free-running under the Go race detector (and compared with the serial answers)
+    res += vlib.race_pass("c14race", INJECTS, "./internal/zzverif_c14", ["race"], budget=240 if tier == "thorough" else 24, rewrites=REWRITES)
     vlib.finish(PID, tier, "model_checking", res, t0, ASSUME,
                 "part A: complete cross product subnet-config grammar x seeds x libver 0-4 x family x generation {known, removed, unknown} through the real Select and client SelectPhantom, plus every offset of every <=256-address subnet; non-trivial = a phantom was derived (distinct config/libver/family/address); part B: stateless DFS over all interleavings of concurrent selections, oracle = each result equals its serial result",
                 seed=seed)
